@@ -69,7 +69,16 @@ def c02(ctx):
     npairs = ctx.scale(6000, 200000)
     for sysi in (4, 1, 2):
         name = versions.SYSTEMS[sysi]
-        pool = sorted({versions.semver_like(rng, sysi, strict=True) for _ in range(ctx.scale(400, 3000))} |
+        # most strings share one of a few numeric cores, so that the prerelease identifiers decide most comparisons
+        shared_cores = [b".".join(rng.choice(versions.SMALL) for _ in range(3)) for _ in range(4)]
+        def strict_string():
+            s = versions.semver_like(rng, sysi, strict=True)
+            if rng.random() < 0.7:
+                body = s[1:] if s.startswith(b"v") else s
+                rest = body[len(body.split(b"-")[0].split(b"+")[0]):]
+                s = (b"v" if s.startswith(b"v") else b"") + rng.choice(shared_cores) + rest
+            return s
+        pool = sorted({strict_string() for _ in range(ctx.scale(400, 3000))} |
                       {b"1.0.0--5", b"1.0.0-1", b"1.0.0-alpha.beta", b"1.0.0-alpha.1", b"1.0.0-rc.1", b"1.0.0",
                        b"1.0.0-99999999999999999999", b"1.0.0-100000000000000000000", b"1.0.0-a-b", b"1.0.0-0",
                        b"1.0.0-18446744073709551617", b"1.0.0-18446744073709551616", b"1.0.0-2", b"1.0.0-36893488147419103233",
@@ -97,6 +106,9 @@ def c02(ctx):
                     ctx.violation("%s: ordering differs from SemVer 2.0 precedence" % name,
                                   {"system": name, "a": a, "b": b}, observed=g, required=w)
             ctx.nontriv((sysi, a, b))
+        core = lambda s: strip(s).split(b"+")[0].split(b"-")[0]
+        ctx.count("c02:%s:pairs_decided_by_prerelease" % name,
+                  sum(1 for a, b in pairs if core(a) == core(b) and b"-" in a.split(b"+")[0] and b"-" in b.split(b"+")[0]))
         ctx.count("c02:%s:pairs" % name, len(pairs))
         if pairs:
             ctx.sample({"system": name, "a": pairs[0][0], "b": pairs[0][1], "go": got[0], "spec": want[0]})
